@@ -400,7 +400,7 @@ for _g, _ps in _R5.items():
 # round 6: the clean variants (same refactoring, slip corrected) of the seeded changes Cxx-d
 _R6 = {'01': ['C01', 'C03', 'C08'], '02': ['C02', 'C10', 'C08'], '03': ['C03', 'C05', 'C08'], '04': ['C04', 'C09'], '05': ['C05', 'C06', 'C01'],
        '06': ['C06', 'C09', 'C03', 'C08'], '08': ['C08', 'C03', 'C07'], '09': ['C09', 'C03', 'C08'], '10': ['C10', 'C03', 'C05'], '11': ['C11', 'C06', 'C02'],
-       '12': ['C12', 'C01'], '16': ['C16'], '17': ['C17', 'C19'], '18': ['C18', 'C13']}
+       '12': ['C12', 'C01'], '14': ['C14', 'C15'], '15': ['C15', 'C14'], '16': ['C16'], '17': ['C17', 'C19'], '18': ['C18', 'C13'], '19': ['C19', 'C17', 'C15']}
 for _g, _ps in _R6.items():
     _f = 'selftest/negative/R6C%s-clean.patch' % _g
     if os.path.exists(os.path.join(os.path.dirname(os.path.dirname(os.path.abspath(__file__))), _f)):
